@@ -224,6 +224,7 @@ type Model struct {
 	ForceSync bool
 	// statistics
 	NoSpcFollowed int
+	liveCache     []*MObj // sorted live objects; dropped whenever an object is created or dies
 }
 
 func NewModel(rootFH []byte, lim Limits) *Model {
@@ -278,6 +279,9 @@ func (m *Model) Obj(fh []byte) *MObj {
 func (m *Model) Known(fh []byte) bool { _, ok := m.byFH[string(fh)]; return ok }
 
 func (m *Model) LiveObjs() []*MObj {
+	if m.liveCache != nil {
+		return m.liveCache
+	}
 	var r []*MObj
 	for _, o := range m.Objs {
 		if o.Live {
@@ -285,6 +289,7 @@ func (m *Model) LiveObjs() []*MObj {
 		}
 	}
 	sort.Slice(r, func(i, j int) bool { return r[i].ID < r[j].ID })
+	m.liveCache = r
 	return r
 }
 
@@ -377,11 +382,13 @@ func (m *Model) lookupIn(d *MObj, name string) *MObj {
 }
 
 func (m *Model) kill(o *MObj) {
+	m.liveCache = nil
 	o.Live = false
 	o.Pages = nil
 }
 
 func (m *Model) newObj(kind int, parent *MObj, name string) *MObj {
+	m.liveCache = nil
 	o := &MObj{ID: m.next, Kind: kind, Live: true}
 	m.next++
 	switch kind {
